@@ -171,6 +171,17 @@ def body_slice(case):
         v = float(a[j] + case["t"] * (a[j + 1] - a[j]))
         v = min(max(v, float(a[0])), float(a[-1]))
     name = case["grid"]["names"][ax]
+    labels = set()
+    order = case.get("order", "ascending")
+    if order != "ascending" and k >= 2:
+        # the same table stored with the sliced axis in another order (descending, or joined from parts in any
+        # order): the statement speaks of the two NEIGHBOURING sub-grids, i.e. neighbours in coordinate value
+        p_ = np.arange(k)[::-1] if order == "descending" else np.roll(np.arange(k), 1 + case["node"] % (k - 1))
+        stored_axes = list(axes)
+        stored_axes[ax] = axes[ax][p_]
+        with cut("NssGrid(axis stored in another order)"):
+            g = _grid_mod()(np.take(data, p_, axis=ax), stored_axes, list(case["grid"]["names"]))
+        labels.add("axis_stored_" + order)
     with cut("grid_slice_interp(by index)"):
         r1 = grid_slice_interp(g, v, ax)
     with cut("grid_slice_interp(by name)"):
@@ -185,7 +196,6 @@ def body_slice(case):
     hi = np.take(data, i + 1, axis=ax).astype(np.float64)
     expect_shape = tuple(s for n, s in enumerate(data.shape) if n != ax)
     require(tuple(d1.shape) == expect_shape, f"slice has shape {d1.shape}, expected {expect_shape}")
-    labels = set()
     hit = np.where(a == v)[0]
     if hit.size:
         exact = np.take(data, int(hit[0]), axis=ax).astype(np.float64)
@@ -365,6 +375,7 @@ SUBCHECKS = [
                 "mode": st.sampled_from(["node", "ulp", "between", "between", "rel", "rel"]),
                 "ulps": st.sampled_from([-2, -1, 1, 2, 3, 4, 5, 6, 7, 8]),
                 "t": st.one_of(st.floats(0.0, 1.0), st.sampled_from([0.5, 1e-12, 1 - 1e-12])),
+                "order": st.sampled_from(["ascending", "ascending", "descending", "rotated"]),
             }
         ),
         body_slice,
